@@ -127,7 +127,30 @@ func Run(program string, input interface{}) Outcome {
 	if err != nil {
 		return Outcome{Kind: CompileError, Class: ErrClass(err), Err: err}
 	}
-	return EvalExpr(e, input)
+	return EvalExpr(e, Roomy(input))
+}
+
+// Roomy deep-copies a JSON-like value so that every array has spare capacity
+// behind its last member, as arrays decoded by encoding/json usually have
+// (it grows them by append). An implementation that extends an input array in
+// place then corrupts what a second use of the same array sees, instead of
+// being saved by an exactly-sized slice.
+func Roomy(v interface{}) interface{} {
+	switch x := v.(type) {
+	case []interface{}:
+		out := make([]interface{}, len(x), len(x)+2)
+		for i, e := range x {
+			out[i] = Roomy(e)
+		}
+		return out
+	case map[string]interface{}:
+		out := make(map[string]interface{}, len(x))
+		for k, e := range x {
+			out[k] = Roomy(e)
+		}
+		return out
+	}
+	return v
 }
 
 // EvalExpr evaluates a compiled expression and classifies the outcome.
